@@ -76,6 +76,28 @@ pub fn legs(prop: &str, tier: Tier) -> Vec<Leg> {
                 vec![leg("box", "box", if q { 60_000 } else { 3_000_000 }, &["truncate", "garbage", "extend", "splice"]), leg("stream", "stream", if q { 40_000 } else { 2_000_000 }, &["truncate", "garbage", "tx.any_tag_byte"]), leg("verifier", "verifier", if q { 30_000 } else { 1_500_000 }, &["truncate", "garbage", "flip", "seg.drop", "seg.dup", "seg.swap", "seg.empty", "char.replace", "num.replace", "verdict.accept", "verdict.reject"])]
             }
         }
+        "C14" => {
+            if n && !simd {
+                vec![leg("mem", "mem", if q { 8_000 } else { 600_000 }, &["probe.rights", "probe.lock", "probe.guard", "probe.vmlck", "release.observed"])]
+            } else {
+                vec![]
+            }
+        }
+        "C15" => {
+            if n && !simd {
+                vec![leg("mem", "mem", if q { 8_000 } else { 600_000 }, &["release.observed", "release.path.drop", "release.path.grow", "release.path.shrink_then_drop", "release.path.locked_resize", "release.path.clone_drop"])]
+            } else {
+                vec![]
+            }
+        }
+        "C19" => {
+            if n && !simd {
+                // runs = base walks x 48 fault plans (none, refuse_from 1..16, refuse_once 1..16, budget 0..14)
+                vec![leg("mem", "mem", 48 * if q { 300 } else { 20_000 }, &["plan.fired", "mlock_refused.refuse_from", "mlock_refused.refuse_once", "mlock_refused.budget"])]
+            } else {
+                vec![]
+            }
+        }
         "C11" => {
             if n {
                 vec![leg("rng-n", "rng", if q { 600 } else { 30_000 }, &["call.seam", "call.real", "history.byte_varies_evaluated"])]
@@ -104,6 +126,80 @@ pub fn meta(prop: &str, tier: Tier, seed: u64) -> ReportMeta {
             real_common.clone(),
             vec!["the reader that cuts the stream (the simulator's schedule)".to_string()],
         ),
+        "C02" => (
+            "exploration",
+            "each run = one (suite, sender API form, receiver API form) with keys from the simulated generator; 1-3 tuples are sealed, each delivered untampered (must open to the original), then with exactly one corruption per delivery (flip of one bit of tag/body/nonce/ephemeral key/symmetric key, truncation by k bytes, extension by k bytes; for streams also header/key/AD/tag-byte flips) and untampered again. Expected verdict = byte identity of the delivered tuple with the sealed one. distinct = distinct run shape (suite + forms + sequence of (fault kind, identical?) + bucketed lengths); non-trivial = a fault fired or >=3 SUT operations. state_coverage_cells = distinct (suite, receiver form, len<=64, component, bit | truncation length) cells hit.".to_string(),
+            vec!["accidental acceptance of a corrupted tuple has probability <= 2^-100 per case (Poly1305)".to_string(), "bits of X25519 secret / sender public keys are not in the fault set (clamping makes some flips void; the property does not list them)".to_string(), "a receiver that unwinds counts as 'not accepted' here; the unwind itself is C04's business".to_string()],
+            real_common.clone(),
+            vec!["OS random generator (hook H1, seeded)".to_string(), "the channel between sender and receiver".to_string()],
+        ),
+        "C03" => (
+            "exploration",
+            "each run = one history over {push(mlen, ad, tag), rekey-both, deliver-next, deliver-wrong(replay|skip|foreign|AD flip/truncate/extend/presence|bit flip in tag byte/body/mac|truncate|extend|header/key flip|garbage), drain} started from a counter class in {1, mid, 0xfffffffd, 0xfffffffe, 0xffffffff} installed through hook H2, for each API flavour of both ends; libsodium's secretstream is driven by the same history and ciphertext bytes, (key, nonce) states and verdicts are compared after every event. distinct = distinct run shape; state_coverage_cells = distinct (counter class, event kind, tag class, mlen mod 16, adlen mod 16, flavour) tuples.".to_string(),
+            vec!["libsodium 1.0.18 (system library) is the trusted reference replica".to_string(), "histories are <= 27 events; sampled, not enumerated".to_string()],
+            {
+                let mut v = real_common.clone();
+                v.push("libsodium 1.0.18 crypto_secretstream_xchacha20poly1305 (C, linked)".to_string());
+                v
+            },
+            vec!["OS random generator (hook H1, seeded)".to_string(), "the channel between push and pull side".to_string(), "counter presets through hook H2".to_string()],
+        ),
+        "C04" => (
+            "exploration",
+            "each run = one receiving entry point fed by the faulty channel/store: truncation to every shorter length, extension, bit flip, splice, garbage (zeros/0xff/random/grammar alphabet) of every length 0..=2*overhead+64, authentic stream messages with any tag byte, and for password-hash strings segment-level store faults (lost/duplicated/swapped/emptied '$' segment, replaced character, replaced m/t/p/v number incl. 0, 2^32-1, 2^32, 2^64-1). Judged: the call returns (no unwind), the worker process survives, the largest single allocation stays <= 8*input+16 MiB (+ guarded m for pwhash). distinct = distinct run shape; cells = (receiver, fault kind, delivered length).".to_string(),
+            vec!["only totality is judged, not accept/reject correctness".to_string(), "password-hash strings with m > 1024 KiB or t > 4 are parsed (needs_rehash/from_string) but not handed to functions that would compute".to_string(), "string faults are segment-level, not a full grammar-directed generator".to_string(), "caller-chosen output buffers are sized as the API documents (ciphertext length minus overhead)".to_string()],
+            real_common.clone(),
+            vec!["OS random generator (hook H1, seeded)".to_string(), "the channel / store between producer and verifier".to_string()],
+        ),
+        "C11" => (
+            "exploration",
+            "each run = 2-4 randomised entry points (from the static table of every non-test call site of copy_randombytes / randombytes_buf / gen), 16-32 interleaved calls each, with the generator behind seam H1: per call the ledger must grow by the documented number of bytes and the random component of the result must be (the documented image of) exactly the bytes drawn in that call; per run no value repeats, none is all-zero, no byte position is constant across >=16 calls. One run in twelve uses no seam at all (the shipped OsRng path) with the history oracle only. distinct = distinct run shape (sequence of entry points).".to_string(),
+            vec!["the entry-point table is static; a randomised entry point added to dryoc later is not covered until the table is extended".to_string(), "false-alarm probability of the history oracle < 2^-100 per run".to_string(), "scalarmult_base / seed_keypair (pure functions of the draw) are used to compute the expected image".to_string()],
+            real_common.clone(),
+            vec!["OS random generator (hook H1) in the seam configuration; the real OsRng in the 'real' configuration".to_string()],
+        ),
+        "C14" => (
+            "exploration",
+            "each run = one seeded walk (8-30 events) over constructors, mlock/munlock/readonly/readwrite/noaccess transitions (offered exactly where the types offer them), clone, resize, write, read, drop and raw allocate/deallocate, for HeapBytes of many lengths and HeapByteArray<N>, N in {0,1,16,32,64,4095,4096,4097,8192,8193}, up to 4 live regions. After every event, for every live region: effective rights of the first and last data byte of every data page (EFAULT probing) and /proc/self/smaps perms == promised protect mode; VM_LOCKED of every data page == promised lock mode; page before the data and last page of the allocation inaccessible; contents == model; VmLck == page size x |pages of regions promised Locked|. After the last drop: VmLck == 0, every page ever handed out is rw and unlocked. state_coverage_cells = (event, type state, container kind, length class) edges.".to_string(),
+            vec!["Linux, 4 KiB pages, readable /proc/self/{smaps,status,mem}; nothing else in the worker locks memory".to_string(), "kernel behaviour encoded: mprotect rounds up to pages; mlock of a PROT_NONE range returns ENOMEM but leaves VM_LOCKED set".to_string(), "walks are sampled".to_string()],
+            {
+                let mut v = real_common.clone();
+                v.push("the Linux kernel's mlock/munlock/mprotect/madvise (forwarded by raw syscall)".to_string());
+                v.push("glibc malloc (__libc_memalign/__libc_free, forwarded)".to_string());
+                v
+            },
+            vec!["libc symbols mlock/munlock/mprotect/madvise/posix_memalign/free are defined by the simulator binary (record + forward)".to_string(), "OS random generator (hook H1)".to_string()],
+        ),
+        "C15" => (
+            "exploration",
+            "the C14 walk workload biased to release paths (drop, grow across a reallocation, shrink then drop, locked copy-resize, clone then drop, error paths under lock-refusal plans). Every block from the page-aligned allocator is handed out zero-filled by the simulator's posix_memalign and the harness writes only non-zero bytes; when dryoc passes a block to free the whole block (guards, data, spare capacity) is read through /proc/self/mem and must be all-zero; a block never handed back must not hold non-zero bytes at the end of the run. distinct = distinct run shape; probes release.path.* count releases per path.".to_string(),
+            vec!["observation is at libc free, i.e. before the system allocator sees the block".to_string(), "the raw Allocate/Deallocate events wipe their own bytes (the caller's duty there); only container releases are judged".to_string()],
+            {
+                let mut v = real_common.clone();
+                v.push("glibc malloc (forwarded)".to_string());
+                v.push("the Linux kernel's memory syscalls (forwarded)".to_string());
+                v
+            },
+            vec!["posix_memalign (zero-fills) and free (inspects) are defined by the simulator binary".to_string(), "injected mlock refusals in one run out of four".to_string()],
+        ),
+        "C17" => (
+            "exploration",
+            "the C02/C03 single-corruption workload delivered through every classic receiver that writes into a caller buffer; before each call the message buffer holds a sentinel (in-place forms: the delivered ciphertext) and the stream tag variable a sentinel; after Err every buffer byte must equal its previous value or zero and the tag variable must be untouched. distinct = distinct run shape.".to_string(),
+            vec!["byte-wise 'unchanged or zero' so that a partial wipe is not flagged".to_string(), "object-API receivers return only an error by type (counted, not judged)".to_string()],
+            real_common.clone(),
+            vec!["OS random generator (hook H1, seeded)".to_string(), "the channel".to_string()],
+        ),
+        "C19" => (
+            "fault_enumeration",
+            "base walks of the C14 workload are sampled from the seed; for each base walk the refusal space is enumerated: plan 0 = none, refuse_from(k) for k = 1..16 (ENOMEM/EPERM), refuse_once(k, EAGAIN) for k = 1..16, budget(B pages) for B = 0..14 — 48 executions per walk, the policy caps a walk at 16 lock requests and 14 locked pages so that every k and B of the walk is covered. Judged: every Result-returning constructor/transition returns (no unwind, worker survives); after a refusal every live region still satisfies the C14 invariants; released blocks are wiped; VmLck == 0 and no page left protected at the end. distinct = distinct run shape among executions in which a refusal fired.".to_string(),
+            vec!["a refusal is injected instead of the system call (limit-check model: the range is untouched)".to_string(), "operations whose signature returns no Result (clone, resize, Default, new_bytes on locked types) are documented to panic and may".to_string(), "base walks are sampled; only the refusal index / budget dimension is enumerated".to_string()],
+            {
+                let mut v = real_common.clone();
+                v.push("the Linux kernel's memory syscalls for every non-refused call".to_string());
+                v
+            },
+            vec!["refused mlock calls (injected by the simulator's mlock symbol)".to_string(), "posix_memalign/free observers".to_string()],
+        ),
         _ => ("exploration", String::new(), vec![], real_common.clone(), vec![]),
     };
     ReportMeta {
@@ -115,6 +211,10 @@ pub fn meta(prop: &str, tier: Tier, seed: u64) -> ReportMeta {
         assumptions,
         components_real: real,
         components_stub: stub,
-        extra: serde_json::json!({}),
+        extra: if prop == "C19" {
+            serde_json::json!({"exhaustive": false, "enumerated_dimension": "per base walk: refuse_from k=1..16, refuse_once k=1..16, budget B=0..14 (48 plans incl. none)", "plans_per_walk": 48})
+        } else {
+            serde_json::json!({})
+        },
     }
 }
